@@ -825,3 +825,33 @@ impl<M: Math, T: Transformation<M>> Hamiltonian<M> for TransformedHamiltonian<M,
         Ok(())
     }
 }
+
+#[cfg(nuts_rs_verif)]
+impl<M: Math> TransformedPoint<M> {
+    /// Verification hook: `(logp, logdet, kinetic_energy, initial_energy, transform_id)`.
+    pub fn verif_scalars(&self) -> (f64, f64, f64, f64, i64) {
+        (
+            self.logp,
+            self.logdet,
+            self.kinetic_energy,
+            self.initial_energy,
+            self.transform_id,
+        )
+    }
+
+    /// Verification hook: the five vectors `(x, grad_x, y, grad_y, velocity)`.
+    pub fn verif_vectors(&self, math: &mut M) -> [Box<[f64]>; 5] {
+        [
+            math.box_array(&self.untransformed_position),
+            math.box_array(&self.untransformed_gradient),
+            math.box_array(&self.transformed_position),
+            math.box_array(&self.transformed_gradient),
+            math.box_array(&self.velocity),
+        ]
+    }
+
+    /// Verification hook: overwrite the velocity (used to start a trajectory from a chosen momentum).
+    pub fn verif_set_velocity(&mut self, math: &mut M, velocity: &[f64]) {
+        math.read_from_slice(&mut self.velocity, velocity);
+    }
+}
